@@ -159,6 +159,18 @@ func c09(x *Ctx) {
 						carried = true
 						return
 					}
+					// a choice between constants made inside this iteration is information about the current field only
+					if h.Dominates(y.Block()) {
+						allConst := true
+						for _, e := range y.Edges {
+							if _, isK := e.(*ssa.Const); !isK {
+								allConst = false
+							}
+						}
+						if allConst && len(y.Edges) > 1 {
+							local = "a flag set from the current field alone"
+						}
+					}
 					for _, e := range y.Edges {
 						walk(e)
 					}
